@@ -39,4 +39,16 @@ CHECKS["C01"] = {
           "writer __init__/__exit__, H5TraceEvent, H5Logs/H5Tables readers. Induction over sequences of calls is the data-structure "
           "meta-rule (each operation preserves the invariant).",
   "technique": "contract-based deductive verification: AST-generated VCs (loop invariants, callee contracts) over an axiomatised HDF5/numpy model, discharged by z3 (cvc5 fallback)"}
+CHECKS["C14"] = {
+  "text": "Proof (z3 string theory, all identifiers) that Basin.verify_basin is truthy exactly for an available basin whose run "
+          "identifier equals the referrer's (prefix for mapped basins) and never raises, for Optional[str] identifiers on both sides; "
+          "that basins_retrieve hands out no basin whose key is on the ignore list, file-type basins only if local basins are allowed "
+          "and verified, each carrying the ignore list plus all own keys; that Basin.ds passes the ignore list to the opened dataset "
+          "(ignore set grows strictly along any chain => termination for every reference graph); that get_feature_data serves data only "
+          "after verification; frame obligations: the only writes of _local_basins_allowed are False and the format=='hdf5' guard.",
+  "note": "Trusted: Basin constructors record their arguments (availability thread outside every contract), python str.__eq__/startswith "
+          "semantics for non-str arguments, file-system existence unconstrained, the scenario of four basin definitions (file, remote, "
+          "internal, relative file) in basins_retrieve is one fixed structure with symbolic flags. Not decided: DCOR/S3 network behaviour, "
+          "basin dictionaries without a 'key'. The termination argument (variant on the ignore set) is stated, not mechanised.",
+  "technique": "contract-based deductive verification: AST-generated VCs discharged by z3 (strings; cvc5 fallback) plus a solver-free field-write frame analysis"}
 NOT_APPLICABLE = {}
